@@ -61,6 +61,41 @@ def fallback_consumers(fx, cfgname="A"):
     return obs
 
 
+def backend_totality_agreement(fx, summ, fb, summb):
+    """C05 (R-SIB): the callers in libxcp are written against the default backend.  An exported copier that
+    *completes* its request there (its callers do not loop) must complete it in the fallback backend too: a
+    sibling that may return a short count leaves bytes uncopied on a success path."""
+    obs = []
+    def exported(fx_):
+        out = {}
+        for g in ro.fns_in_scope(fx_, crates=("libfs",)):
+            if not g.is_closure and (g.raw.get("exported") or g.raw.get("reachable")):
+                out.setdefault(g.path.split("::")[-1], []).append(g)
+        return out
+    ea, eb = exported(fx), exported(fb)
+    n = 0
+    for name, gs in sorted(eb.items()):
+        if name not in ea:
+            continue
+        pa = any(g.path in summ for g in ea[name])
+        for g in gs:
+            pb = g.path in summb
+            if not pb and not pa:
+                # both complete: counted only for copiers (functions that reach a partial primitive)
+                if not (set(q.callgraph(fb).reach(g.path)) & r_short.PRIMITIVES):
+                    continue
+            n += 1
+            ok = pa or not pb
+            obs.append(Ob("R-SIB", mkkey("R-SIB", name, "backend-totality", 0), ok, g.loc(), g.path,
+                          "%s: default backend %s, fallback backend %s%s" % (
+                              name, "may return a short count (callers loop)" if pa else "completes the request",
+                              "may return a short count" if pb else "completes the request",
+                              "" if ok else " -- the callers, written against the default backend, do not loop"), cfg="B"))
+    if n < 2:
+        obs.append(anchor_ob("R-SIB", "exported copiers present in both backends (found %d)" % n, cfg="B"))
+    return obs
+
+
 def short_counts(fx, cfgname="A"):
     reach = p_gate.driver_reach(fx) if cfgname == "A" else None
     obs, summ = r_short.run(fx, cfgname, reach=reach)
@@ -84,6 +119,9 @@ def c01(ctx):
     # block jobs address the file by explicit offsets
     import p_thread
     ctx.add(p_thread.block_jobs_offset_only(fx))
+    import p_range
+    ctx.add(p_range.jobs_within_range(fx))
+    ctx.rep.extra["range_arithmetic"] = dict(decided=p_range.jobs_within_range.decided, undecided=p_range.jobs_within_range.notes)
 
 
 def c05(ctx):
@@ -100,6 +138,7 @@ def c05(ctx):
     obs, summb = r_short.run(fb, "B")
     ctx.add(obs)
     ctx.rep.extra["partial_functions"]["B"] = summb
+    ctx.add(backend_totality_agreement(fx, summ, fb, summb))
     ctx.add([o for o in r_err.run(fb, crates=("libfs",), cfgname="B")])
 
 
